@@ -117,7 +117,7 @@ def gen_table(rng, K):
         table.append(atoms)
     # serial numbers (the TER after a chain takes one number in schemes 0 and 1)
     n = sum(len(t) for t in table)
-    sch = rng.choice([0, 0, 1, 2, 3])
+    sch = rng.choice([0, 0, 1, 2, 3, 4])
     if sch == 3:
         serial = K["serial_max"] - n - 3 * len(chains) * len(models) - rng.randint(0, 5)
     else:
@@ -127,12 +127,18 @@ def gen_table(rng, K):
             serial = 0
         last = None
         for a in atoms:
-            if sch in (0, 1, 3) and last is not None and a["chain"] != last:
+            if sch in (0, 1, 3, 4) and last is not None and a["chain"] != last:
                 serial += 1
             serial += 1 if sch != 2 else rng.randint(1, 7)
             a["serial"] = serial
             last = a["chain"]
         serial += 1
+    if sch == 4:
+        # the table ends exactly at the limit: last atom serial_max (99998), its TER takes 99999
+        shift = K["serial_max"] - max(a["serial"] for atoms in table for a in atoms)
+        for atoms in table:
+            for a in atoms:
+                a["serial"] += shift
     return [a for atoms in table for a in atoms]
 
 
